@@ -247,6 +247,7 @@ class FnResult:
         self.ret_galias = set()    # module-level objects the result may alias
         self.mutable_defaults = {}  # param index -> default text
         self.memo_globals = set()
+        self.mutates_self = False
         self.scalar_aug = 0
         self.user_callable_alias = 0
 
@@ -769,6 +770,16 @@ class FnAnalysis:
                 elif meth not in RNG_NON_DRAWS and not st.localrng[nm]:
                     self.res.entropy.append(line)
                 return
+            # a method of a class of the analysed modules that re-binds / writes attributes of its receiver
+            # (KalmanState.map_frames, add_features ...): called on an object that is still the caller's
+            muts = [qq for qq, ss in self.prog.summary.items()
+                    if qq.count(".") == 2 and qq.rsplit(".", 1)[1] == meth and ss.get("mutates_self")]
+            if muts:
+                r = self.roots(recv, st)
+                if r:
+                    self.note_write(r, line, "%s.%s() changes the attributes of its receiver (%s)" % (
+                        ast.unparse(recv), meth, muts[0]), st, list(c.args), ctl)
+                return
             if meth in MUTATING_METHODS:
                 if meth == "byteswap" and not (c.args or c.keywords):
                     return
@@ -955,6 +966,9 @@ class FnAnalysis:
                                     [value] if value is not None else [], ctl)
                 return
             if d and b in self.local_names:
+                if b == "self" and "self" in self.params and "." in self.qname \
+                        and not self.qname.endswith(".__init__") and st.alias.get("self") == frozenset(["P:0"]):
+                    self.res.mutates_self = True    # the method re-binds an attribute of the object it is called on
                 st.alias[d] = roots               # field of a local object now refers to the value
                 if vt:
                     st.taint.add(d)
@@ -1409,7 +1423,9 @@ class Program:
                     "unguarded": set(r.unguarded_reads),
                     "draws": bool(r.draws), "undominated": any(not d for _, d in r.draws),
                     "seed": (r.seed_lits[0] if r.seed_lits else None),
-                    "bad_seed": bool(r.bad_seeds), "entropy": set(r.entropy)} for q, r in res.items()}
+                    "bad_seed": bool(r.bad_seeds), "entropy": set(r.entropy),
+                    "mutates_self": bool(r.mutates_self or any(p == 0 for p, _, _ in r.inplace)
+                                         and "." in q.split(".", 1)[1])} for q, r in res.items()}
         changed = True
         n = 0
         while changed:
@@ -1424,6 +1440,10 @@ class Program:
                     t = summ.get(c["callee"])
                     if t is None:
                         continue             # e.g. class without __init__, or function of an unanalysed module
+                    if c.get("bound") and not c.get("is_ctor") and t.get("mutates_self") and not s["mutates_self"] \
+                            and "." in q.split(".", 1)[1]:
+                        s["mutates_self"] = True
+                        changed = True
                     before = (len(s["writes"]), len(s["gwrites"]), len(s["greads"]), len(s["unguarded"]), s["draws"],
                               s["undominated"], s["bad_seed"], len(s["entropy"]), s["seed"])
                     if an is None:
